@@ -71,6 +71,9 @@ pub enum CertFault {
     /// Certificate for the key of the ancestor `n` levels up (1 = parent ... ) — a loop.
     LoopKey(u8),
     WrongCrlUri,
+    /// Certificate for the key of the ancestor `n` levels up whose SIA points at that ancestor's
+    /// publication point — a true cycle in the CA graph.
+    CycleTo(u8),
 }
 
 #[derive(Serialize, Deserialize, Clone, Copy, Debug, PartialEq, Eq, Hash)]
@@ -103,6 +106,8 @@ pub enum ObjKind {
     Aspa { providers: u8 },
     Router { asns: u8 },
     Gbr,
+    /// ROA with explicit content (used where prefixes must relate to other CAs' resources)
+    RoaRaw { asn: u32, prefixes: Vec<(IpAddr, u8, Option<u8>)> },
 }
 
 #[derive(Serialize, Deserialize, Clone, Debug, PartialEq, Eq)]
@@ -134,6 +139,9 @@ pub struct Ca {
     pub not_after: i64,
     pub cert_fault: Option<CertFault>,
     pub versions: Vec<Version>,
+    /// additional resources held by this CA (and therefore by all its ancestors)
+    #[serde(default)]
+    pub extra_res: Option<Res>,
 }
 
 #[derive(Serialize, Deserialize, Clone, Debug, PartialEq, Eq)]
@@ -144,6 +152,9 @@ pub struct Step {
     pub fail_modules: Vec<usize>,
     /// run without collector (`--noupdate` equivalent)
     pub offline: bool,
+    /// stale policy for this run only (overrides cfg.stale)
+    #[serde(default)]
+    pub stale: Option<u8>,
 }
 
 #[derive(Serialize, Deserialize, Clone, Debug, PartialEq, Eq)]
@@ -214,6 +225,11 @@ pub fn cert_res(sc: &Scenario, ca: usize) -> Res {
         res.v4.extend(o.v4);
         res.v6.extend(o.v6);
         res.asn.extend(o.asn);
+        if let Some(e) = sc.cas[j].extra_res.as_ref() {
+            res.v4.extend(e.v4.iter().cloned());
+            res.v6.extend(e.v6.iter().cloned());
+            res.asn.extend(e.asn.iter().cloned());
+        }
     }
     res.asn.sort();
     res
@@ -279,12 +295,13 @@ pub fn obj_items(ca: usize, v: usize, k: usize, obj: &Obj) -> Vec<MItem> {
                 .collect()
         }
         ObjKind::Gbr => vec![],
+        ObjKind::RoaRaw { asn, ref prefixes } => prefixes.iter().map(|(a, l, m)| MItem::Origin(MOrigin::new(*a, *l, *m, asn))).collect(),
     }
 }
 
 pub fn obj_name(k: usize, obj: &Obj) -> String {
     match obj.kind {
-        ObjKind::Roa { .. } => format!("r{}.roa", k),
+        ObjKind::Roa { .. } | ObjKind::RoaRaw { .. } => format!("r{}.roa", k),
         ObjKind::Aspa { .. } => format!("a{}.asa", k),
         ObjKind::Router { .. } => format!("k{}.cer", k),
         ObjKind::Gbr => format!("g{}.gbr", k),
@@ -373,7 +390,9 @@ impl World {
                         res.v4.push((Ipv4Addr::new(192, 0, 2, 0), 24));
                     }
                     let mut key = ca.key;
-                    if let Some(CertFault::LoopKey(n)) = ca.cert_fault {
+                    let mut dir = dir.clone();
+                    let mut mft = mft.clone();
+                    if let Some(CertFault::LoopKey(n)) | Some(CertFault::CycleTo(n)) = ca.cert_fault {
                         // key of an ancestor n levels above this CA (1 = its parent)
                         let mut cur = p;
                         for _ in 1..n.max(1) {
@@ -382,6 +401,12 @@ impl World {
                             }
                         }
                         key = sc.cas[cur].key;
+                        if matches!(ca.cert_fault, Some(CertFault::CycleTo(_))) {
+                            dir = ca_dir_uri(&sc, cur);
+                            mft = mft_uri(&sc, cur);
+                            // resources of the ancestor as far as the issuer holds them
+                            res = cert_res(&sc, p);
+                        }
                     }
                     let wrong_crl = uri::Rsync::from_string(format!("{}other.crl", ca_dir_uri(&sc, p))).unwrap();
                     let mft_opt = if ca.cert_fault == Some(CertFault::NoManifestSia) { None } else { Some(&mft) };
@@ -451,7 +476,7 @@ impl World {
             let crl_override = if obj.fault == Some(ObjFault::WrongCrlUri) { Some(&wrong_crl) } else { None };
             let overclaim = obj.fault == Some(ObjFault::Overclaim);
             let bytes = match &obj.kind {
-                ObjKind::Roa { .. } => {
+                ObjKind::Roa { .. } | ObjKind::RoaRaw { .. } => {
                     let items = obj_items(ca, v, k, obj);
                     let mut asn = 0;
                     let mut prefixes: Vec<(IpAddr, u8, Option<u8>)> = items
@@ -626,6 +651,65 @@ impl World {
         }
     }
 
+    /// Damages what the fake server offers for one module (after `publish`).
+    pub fn sabotage(&self, module: usize, kind: u8) {
+        let moddir = self.srv().join(host(module)).join("repo");
+        let mut files = Vec::new();
+        fn walk(dir: &Path, out: &mut Vec<PathBuf>) {
+            if let Ok(rd) = std::fs::read_dir(dir) {
+                for e in rd.flatten() {
+                    let p = e.path();
+                    if p.is_dir() {
+                        walk(&p, out)
+                    } else {
+                        out.push(p)
+                    }
+                }
+            }
+        }
+        walk(&moddir, &mut files);
+        files.sort();
+        match kind % 5 {
+            0 => {
+                let _ = std::fs::create_dir_all(self.srv().join(host(module)));
+                std::fs::write(self.srv().join(host(module)).join("repo.fail"), b"").unwrap();
+            }
+            1 => {
+                for f in &files {
+                    std::fs::write(f, b"garbage garbage garbage").unwrap();
+                }
+            }
+            2 => {
+                // truncate every file to half
+                for f in &files {
+                    let d = std::fs::read(f).unwrap();
+                    std::fs::write(f, &d[..d.len() / 2]).unwrap();
+                }
+            }
+            3 => {
+                // withhold everything but the manifests
+                for f in &files {
+                    if f.extension().map(|e| e != "mft").unwrap_or(true) {
+                        let _ = std::fs::remove_file(f);
+                    }
+                }
+            }
+            _ => {
+                // flip a byte in every non-manifest file (wrong hashes)
+                for f in &files {
+                    if f.extension().map(|e| e != "mft").unwrap_or(true) {
+                        let mut d = std::fs::read(f).unwrap();
+                        if !d.is_empty() {
+                            let n = d.len() / 2;
+                            d[n] ^= 0x55;
+                        }
+                        std::fs::write(f, d).unwrap();
+                    }
+                }
+            }
+        }
+    }
+
     pub fn config(&self) -> Config {
         let cfg = &self.sc.cfg;
         let mut c = Config::default_with_paths(self.dir.path().join("routinator.conf"), self.cache());
@@ -645,12 +729,18 @@ impl World {
         c.rsync_command = self.rsync_bin.to_string_lossy().into_owned();
         c.rsync_args = Some(vec![format!("--rv-root={}", self.srv().display()), format!("--rv-log={}", self.rsync_log().display())]);
         c.rsync_timeout = Some(std::time::Duration::from_secs(30));
+        c.log_repository_issues = std::env::var_os("RV_LOG").is_some();
         c
     }
 
     /// One engine run over the persistent cache.
     pub fn run(&self, offline: bool, exceptions: &LocalExceptions) -> Result<RunOutput, String> {
-        let config = self.config();
+        self.run_with(offline, exceptions, |_| ())
+    }
+
+    pub fn run_with(&self, offline: bool, exceptions: &LocalExceptions, tweak: impl FnOnce(&mut Config)) -> Result<RunOutput, String> {
+        let mut config = self.config();
+        tweak(&mut config);
         let mut engine = Engine::new(&config, !offline).map_err(|_| "Engine::new failed".to_string())?;
         engine.ignite().map_err(|_| "ignite failed".to_string())?;
         let started = std::time::Instant::now();
@@ -690,6 +780,10 @@ pub struct ModelState {
     pub stored: HashMap<usize, usize>,
     /// version present in the local rsync copy per CA (None = nothing fetched yet for its module)
     pub local: HashMap<usize, usize>,
+    /// modules with a local rsync copy
+    pub local_modules: BTreeSet<usize>,
+    /// root CAs whose trust anchor certificate is in the store
+    pub ta_stored: BTreeSet<usize>,
 }
 
 #[derive(Clone, Debug, Default)]
@@ -705,6 +799,8 @@ pub struct Expected {
     pub refresh_bound: Option<i64>,
     /// every item of every object whose expected contribution is "nothing" keyed for diagnostics
     pub forbidden: BTreeMap<MItem, String>,
+    /// smallest EE notAfter among contributing objects (seconds from now)
+    pub refresh_min_leaf: Option<i64>,
 }
 
 fn is_stale(off: i64) -> bool {
@@ -754,7 +850,12 @@ fn cert_ok(sc: &Scenario, ca: usize) -> bool {
 }
 
 /// Runs the model for one step, updating `state`.
-pub fn model_step(sc: &Scenario, step: &Step, state: &mut ModelState) -> Expected {
+pub fn model_step(sc_in: &Scenario, step: &Step, state: &mut ModelState) -> Expected {
+    let mut sc_eff = sc_in.clone();
+    if let Some(st) = step.stale {
+        sc_eff.cfg.stale = st;
+    }
+    let sc = &sc_eff;
     let mut exp = Expected::default();
     // process CAs in index order (parents have smaller indices)
     let mut refresh: Option<i64> = None;
@@ -775,15 +876,13 @@ pub fn model_step(sc: &Scenario, step: &Step, state: &mut ModelState) -> Expecte
             exp.skipped.insert(i);
             continue;
         }
-        if ca.versions.is_empty() {
-            exp.rejected.insert(i);
-            continue;
-        }
         // fetched view: the whole module is transferred once per run, when first needed
+        // (for a trust anchor: when its certificate is loaded)
         let module_ok = !step.fail_modules.contains(&ca.module);
         if !step.offline && !attempted.contains(&ca.module) {
             attempted.insert(ca.module);
             if module_ok {
+                state.local_modules.insert(ca.module);
                 for (j, other) in sc.cas.iter().enumerate() {
                     if other.module == ca.module && !other.versions.is_empty() {
                         let v = step.publish.get(j).copied().unwrap_or(0).min(other.versions.len() - 1);
@@ -791,6 +890,20 @@ pub fn model_step(sc: &Scenario, step: &Step, state: &mut ModelState) -> Expecte
                     }
                 }
             }
+        }
+        if ca.parent.is_none() {
+            // trust anchor certificate: from the local rsync copy if a collector runs, else the stored copy
+            let from_collector = !step.offline && state.local_modules.contains(&ca.module);
+            if from_collector {
+                state.ta_stored.insert(i);
+            } else if !state.ta_stored.contains(&i) {
+                exp.skipped.insert(i);
+                continue;
+            }
+        }
+        if ca.versions.is_empty() {
+            exp.rejected.insert(i);
+            continue;
         }
         let fetched = if step.offline { None } else { state.local.get(&i).copied() };
         let stored = state.stored.get(&i).copied();
@@ -829,7 +942,7 @@ pub fn model_step(sc: &Scenario, step: &Step, state: &mut ModelState) -> Expecte
         for (k, obj) in ver.objs.iter().enumerate() {
             let items = obj_items(i, v, k, obj);
             let enabled = match obj.kind {
-                ObjKind::Roa { .. } => true,
+                ObjKind::Roa { .. } | ObjKind::RoaRaw { .. } => true,
                 ObjKind::Aspa { .. } => sc.cfg.aspa,
                 ObjKind::Router { .. } => sc.cfg.bgpsec,
                 ObjKind::Gbr => false,
@@ -837,7 +950,7 @@ pub fn model_step(sc: &Scenario, step: &Step, state: &mut ModelState) -> Expecte
             let fault_applies = match (obj.fault, &obj.kind) {
                 (None, _) => false,
                 // CRL-URI override is only implemented for ROAs by the generator
-                (Some(ObjFault::WrongCrlUri), ObjKind::Roa { .. }) => true,
+                (Some(ObjFault::WrongCrlUri), ObjKind::Roa { .. }) | (Some(ObjFault::WrongCrlUri), ObjKind::RoaRaw { .. }) => true,
                 (Some(ObjFault::WrongCrlUri), _) => false,
                 (Some(_), _) => true,
             };
@@ -858,6 +971,7 @@ pub fn model_step(sc: &Scenario, step: &Step, state: &mut ModelState) -> Expecte
                     }
                 }
                 if any {
+                    exp.refresh_min_leaf = Some(exp.refresh_min_leaf.map(|x: i64| x.min(obj.not_after)).unwrap_or(obj.not_after));
                     let r = chain_r.min(obj.not_after);
                     refresh = Some(refresh.map(|x: i64| x.min(r)).unwrap_or(r));
                 }
@@ -880,6 +994,7 @@ pub fn model_step(sc: &Scenario, step: &Step, state: &mut ModelState) -> Expecte
             .map(|(_, c)| c.module)
             .collect();
         state.local.retain(|j, _| keep.contains(&sc.cas[*j].module));
+        state.local_modules.retain(|m| keep.contains(m));
     }
     // unsafe-VRP filter
     if sc.cfg.unsafe_vrps == 0 {
